@@ -55,6 +55,7 @@ type raceSink struct {
 	// concurrent surface too
 	failEvery int
 	calls     int
+	syncs     int
 }
 
 func (s *raceSink) bump() { s.n++ }
@@ -92,6 +93,10 @@ func (s *raceSink) Sync() error {
 	s.synced = s.n
 	zsim.Yield(zsim.KSink, unsafe.Pointer(s))
 	s.synced = s.n
+	s.syncs++
+	if s.failEvery > 0 && s.syncs%2 == 1 {
+		return errC09device // a flaky device also fails every other Sync
+	}
 	return nil
 }
 func (s *raceSink) Close() error { return nil }
@@ -210,7 +215,13 @@ func runC09(c *Ctx) {
 	}
 	w.handler = zapslog.NewHandler(core)
 	w.handler3 = w.handler.WithGroup("a").WithGroup("b").WithGroup("c")
-	w.bws = &zapcore.BufferedWriteSyncer{WS: &raceSink{}, Size: pick(g, 16, 64, 256), FlushInterval: time.Second}
+	bwsDev := &raceSink{}
+	if flaky {
+		// the buffered syncer's device is flaky too: timer-driven flushes and
+		// explicit ones meet failing writes and failing syncs
+		bwsDev.failEvery = 2 + c.F.Draw(3)
+	}
+	w.bws = &zapcore.BufferedWriteSyncer{WS: bwsDev, Size: pick(g, 16, 64, 256), FlushInterval: time.Second}
 	w.bws.Clock = clk.For(unsafe.Pointer(w.bws), unsafe.Sizeof(*w.bws))
 	w.locked = zapcore.Lock(&raceSink{})
 	w.combined = zap.CombineWriteSyncers(&raceSink{}, &raceSink{})
